@@ -5,6 +5,7 @@ package sse
 import (
 	"math/rand"
 	"time"
+	"unsafe"
 
 	"github.com/tmaxmax/go-sse/internal/parser"
 )
@@ -151,4 +152,13 @@ func VerifRead(r interface{ Read([]byte) (int, error) }, setBuffer bool, buf []b
 		return p
 	}
 	return read(pf, lastEventID, onRetry, ignoreEOF)
+}
+
+// VerifChunkBase returns the address of the backing array of the chunk slice (0 if it has no
+// capacity), so that the harness can tell which messages share a backing array.
+func (e *Message) VerifChunkBase() uintptr {
+	if cap(e.chunks) == 0 {
+		return 0
+	}
+	return uintptr(unsafe.Pointer(unsafe.SliceData(e.chunks)))
 }
